@@ -67,3 +67,24 @@ Definition step_eq (a b : pstep) : bool :=
   end.
 Definition reqs_okb (kind : pstep -> bool) (reqs : list pstep) : bool :=
   negb (is_nil reqs) && forallb kind reqs && nodupb step_eq reqs.
+
+(* ---- computable domain of the listing / bulk / conversion refinements: a well-formed value under a descriptor whose
+   packedness is the proto3 default (the listing and conversion code decides "packed" by the element type alone),
+   field number in range, map keys of a readable kind, node bytes shorter than 2^63 (Go int) *)
+Definition label_okb (lbl : flabel) (t : ftype) (num : Z) : bool :=
+  match lbl with
+  | LSingular => true
+  | LRepeated p => Bool.eqb p (type_numeric t) && (1 <=? num) && (num <=? MAX_FIELD_NUMBER)
+  | LMap kk => ((kk =? 9) || kind_is_int kk) && (1 <=? num) && (num <=? MAX_FIELD_NUMBER)
+  end.
+Definition node_domain (S : schema) (lbl : flabel) (t : ftype) (num : Z) (v : pval) : bool :=
+  schema_okb S && schema_packed_okb S && wf_fld S lbl t v && label_okb lbl t num && (plen (node_raw lbl num v) <? 2 ^ 63).
+Definition root_domain (S : schema) (root : list Z) (m : pmsg) : bool :=
+  schema_okb S && schema_packed_okb S && wf_msg S root m && (plen (encode_msg m) <? 2 ^ 63).
+(* the node every lookup / listing returns for a value (element count as getByPath reports it) *)
+Definition node_of (lbl : flabel) (t : ftype) (num : Z) (v : pval) : anode :=
+  mk_anode (node_type lbl t) (node_raw lbl num v) (size_of v) false lbl t num.
+(* which requests a bulk lookup on a node of this label takes *)
+Definition req_kind (lbl : flabel) : pstep -> bool :=
+  match lbl with LSingular => is_field_req | LRepeated _ => is_index_req | LMap _ => is_key_req end.
+Definition is_container (v : pval) : bool := match v with VMsg _ | VList _ _ | VMap _ => true | _ => false end.
